@@ -488,7 +488,7 @@ func doFormat(w io.Writer, obj Object, opt OutputOptions, needSep bool) (bool, e
 		// the actual value later.  This needs the file position of the
 		// placeholder, which is only known when formatting directly into the
 		// file (and not, for example, into the body of an object stream).
-		if _, ok := x.pdf.origW.(io.WriteSeeker); ok && w == io.Writer(x.pdf.w) {
+		if x.pdf.canSeek && w == io.Writer(x.pdf.w) {
 			x.pos = append(x.pos, x.pdf.w.pos)
 			x.posRef = append(x.posRef, x.pdf.w.ref)
 			_, err := w.Write(bytes.Repeat([]byte{' '}, x.size))
@@ -1248,7 +1248,7 @@ func (x *Placeholder) Set(val Native) error {
 		return err
 	}
 	for i, pos := range x.pos {
-		_, err = fill.Seek(pos, io.SeekStart)
+		_, err = fill.Seek(x.pdf.seekBase+pos, io.SeekStart)
 		if err != nil {
 			return err
 		}
